@@ -273,6 +273,10 @@ def check_guards(ctx, wm: WeaverModel):
         for g in e.guard:
             if data_dependent(g):
                 continue
+            # a test that looks at the series (a mask, a search, any array) is part of the "not found" test, however it is spelled
+            if any((isinstance(t_, Num) and t_.length is not None) or (isinstance(t_, Term) and (t_.head in ('mask',) or t_.kind in ('ndarray', 'list')))
+                   for t_ in walk_vals(g)):
+                continue
             if any(sym.ATOMS.head(a_) == 'sym' and str(sym.ATOMS.args(a_)[0]).startswith('arg:') for r_ in g.rats() for a_ in sym.all_atoms(r_)):
                 narrowed.append(f"{str(g)[:80]} (raise at {e.loc()})")
     ctx.check(not narrowed, 'C20.1', 'slicing value that is not a sample: the rejection of an absent value does not depend on the value itself (0 is a value like any other)',
